@@ -182,7 +182,13 @@ func runC09Seq(capacity uint32, ops []c09op, c *vk.Ctx) (string, string) {
 			case "recap":
 				// the capacity of a live cache is set again (WithCacheSize on a cache that holds content), possibly
 				// below what is in use
-				ca = ca.WithCacheSize(uint32(op.Len))
+				// (called for its effect on the cache the client holds, as persist's own tests do: the result is not
+				// reassigned for most lengths)
+				if op.Len%3 != 0 {
+					ca.WithCacheSize(uint32(op.Len))
+				} else {
+					ca = ca.WithCacheSize(uint32(op.Len))
+				}
 			case "flushsave":
 				// the cache is held by a persister created WithFlush: after Save it is empty, and still the same cache
 				rerr = persist.NewPersister(c09Store()).WithFlush().WithContent(state.NewState(0), ca).Save("s")
